@@ -254,7 +254,7 @@ def values_eq(st, a, b):
     if ka == 'type':
         return a is b
     if ka == 'obj':
-        return a is b     # default object equality is identity
+        return identical(a, b)     # default object equality is identity (snapshots stand for their originals)
     if ka == 'set':
         if is_concrete(tuple(a.items)) and is_concrete(tuple(b.items)):
             return set(a.items) == set(b.items)
